@@ -494,7 +494,7 @@ def gen_rs(variants, visit, emit):
 
 # ----------------------------------------------------------------------------- package type tree (derive items)
 
-OUT_PKG = "/verif/lean/DoraModel/Gen/PkgTypes.lean"
+OUT_PKG = os.environ.get("GEN_BC_PKG_OUT", "/verif/lean/DoraModel/Gen/PkgTypes.lean")
 PKG_FILES = ["program.rs", "data.rs", "ty.rs", "opcode.rs"]
 PRIMS = {"u8": "u8", "u16": "u16", "u32": "u32", "u64": "u64", "usize": "u64", "i32": "i32", "i64": "i64",
          "bool": "bool", "f32": "f32", "f64": "f64", "char": "char", "String": "str"}
@@ -665,6 +665,47 @@ class PkgEnv:
         return i
 
 
+PRIM_SAMPLE = {"u8": ".nat 200", "u16": ".nat 60000", "u32": ".nat 70000", "u64": ".nat 5000000000", "i32": ".int (-5)",
+               "i64": ".int (-9223372036854775808)", "bool": ".bool true", "f32": ".nat 2143289345",
+               "f64": ".nat 9221120237041090561", "char": ".nat 9731", "str": ".bytes [0xC3, 0xA9, 0x41]",
+               "bytes": ".bytes [68, 128, 1]"}
+
+
+def sample_value(env, t, depth, visiting=()):
+    """(Lean text, nesting levels) of a sample value of table type t; below depth 0 the smallest value is taken
+    (empty vectors, None, the first enum variant that does not lead back to a type being built); None = no finite value."""
+    if depth <= 0 and t in visiting:
+        return None
+    vis = visiting + (t,) if depth <= 0 else ()
+    e = env.entries[t]
+    m = re.fullmatch(r"\.prim \.(\w+)", e)
+    if m:
+        return PRIM_SAMPLE[m.group(1)], 1
+    m = re.fullmatch(r"\.(vec|opt) (\d+)", e)
+    if m:
+        inner = int(m.group(2))
+        sub = sample_value(env, inner, depth - 1, vis) if depth > 0 else None
+        if m.group(1) == "vec":
+            return (".list [%s]" % sub[0], sub[1] + 1) if sub else (".list []", 1)
+        return (".opt (some (%s))" % sub[0], sub[1] + 1) if sub else (".opt none", 1)
+    m = re.fullmatch(r"\.tuple \[(.*)\]", e)
+    if m:
+        ts = [int(x) for x in m.group(1).split(",") if x.strip()]
+        subs = [sample_value(env, x, depth - 1, vis) for x in ts]
+        if any(x is None for x in subs):
+            return None
+        return ".tuple [%s]" % ", ".join(x[0] for x in subs), 1 + max([x[1] for x in subs] + [0])
+    m = re.fullmatch(r"\.enum \[(.*)\]", e)
+    need(m, "sample value: entry " + e)
+    vs = [int(x) for x in m.group(1).split(",") if x.strip()]
+    order = ([depth % len(vs)] if depth > 0 else []) + list(range(len(vs)))
+    for i in order:
+        sub = sample_value(env, vs[i], depth - 1, vis)
+        if sub:
+            return ".variant %d (%s)" % (i, sub[0]), sub[1] + 1
+    return None
+
+
 def gen_pkg():
     items = parse_items()
     env = PkgEnv(items)
@@ -686,6 +727,16 @@ def gen_pkg():
     L.append("def pkgRoot : Nat := %d" % root)
     L.append("")
     L.append("def pkgTypeNames : Array String := #[%s]" % ", ".join('"%s"' % n for n in env.names))
+    L.append("")
+    depth = 6
+    sv = sample_value(env, root, depth)
+    need(sv is not None, "package types: no finite sample value of Program")
+    L.append("/-- a sample value of type `Program` built from the table (one element per vector, `Some` for options,")
+    L.append("    variant `depth mod n` for enums down to nesting depth %d, the smallest value below) — the non-vacuity witness -/" % depth)
+    L.append("def pkgExample : PVal :=")
+    L.append("  " + sv[0])
+    L.append("")
+    L.append("def pkgExampleFuel : Nat := %d" % (sv[1] + 1))
     L.append("")
     L.append("end Dora.Bincode")
     text = "\n".join(L) + "\n"
